@@ -2621,6 +2621,36 @@ func (s *swamp) CloneAndDeleteExpiredTreasures(howMany int32) ([]treasure.Treasu
 // same treasure as matching.
 func (s *swamp) CloneAndDeleteMatchingTreasures(beaconType BeaconType, order BeaconOrder, howMany int32, predicate func(treasure.Treasure) bool, capPredicate func(treasure.Treasure) bool, capMax int32) ([]treasure.Treasure, bool, error) {
 
+	shiftedTreasures, capReached, checkAutoDestroy, err := s.cloneAndDeleteMatchingLocked(beaconType, order, howMany, predicate, capPredicate, capMax)
+	if !checkAutoDestroy {
+		return shiftedTreasures, capReached, err
+	}
+
+	// Auto-destroy on empty, mirroring CloneAndDeleteExpiredTreasures.
+	//
+	// This MUST run after capMu has been released (i.e. after
+	// cloneAndDeleteMatchingLocked returned): Destroy() blocks until every
+	// in-flight vigil is ceased, and another Cap-bearing operation on this
+	// swamp that already began its vigil and is waiting for capMu could
+	// never reach its CeaseVigil if we still held capMu here — Destroy would
+	// wait for that vigil forever while the other operation waits for capMu
+	// forever (lock-order deadlock).
+	if s.beaconKey.Count() == 0 {
+		s.CeaseVigil()
+		s.Destroy()
+	}
+
+	return shiftedTreasures, capReached, err
+}
+
+// cloneAndDeleteMatchingLocked is the part of CloneAndDeleteMatchingTreasures
+// that runs under capMu (when the flow is Cap-bearing). It takes and releases
+// capMu itself, so the caller can run the auto-destroy tail without holding
+// capMu. The checkAutoDestroy result tells the caller whether the shift
+// actually ran, i.e. whether the auto-destroy check must be performed (it is
+// false for the early no-op / error returns).
+func (s *swamp) cloneAndDeleteMatchingLocked(beaconType BeaconType, order BeaconOrder, howMany int32, predicate func(treasure.Treasure) bool, capPredicate func(treasure.Treasure) bool, capMax int32) (shifted []treasure.Treasure, capReached bool, checkAutoDestroy bool, err error) {
+
 	// Cap-bearing flow: serialise against other Cap-bearing flows on this
 	// swamp — see swamp_patch_expired.go for the rationale. Shift-style
 	// flows remove records under beacon mu (no race window), but if Cap
@@ -2636,7 +2666,7 @@ func (s *swamp) CloneAndDeleteMatchingTreasures(beaconType BeaconType, order Bea
 	atomic.StoreInt64(&s.lastInteractionTime, time.Now().UnixNano())
 
 	if howMany <= 0 || predicate == nil {
-		return nil, false, nil
+		return nil, false, false, nil
 	}
 
 	// Ensure the chosen beacon is built before scanning it.
@@ -2654,12 +2684,12 @@ func (s *swamp) CloneAndDeleteMatchingTreasures(beaconType BeaconType, order Bea
 		BeaconTypeValueFloat32, BeaconTypeValueFloat64, BeaconTypeValueString:
 		s.buildBeacon(s.valueBeaconASC, s.valueBeaconDESC, beaconType)
 	default:
-		return nil, false, errors.New("unsupported beacon type for ShiftMatching")
+		return nil, false, false, errors.New("unsupported beacon type for ShiftMatching")
 	}
 
 	bcn := s.GetBeacon(beaconType, order)
 	if bcn == nil {
-		return nil, false, errors.New("beacon not available for the requested type/order")
+		return nil, false, false, errors.New("beacon not available for the requested type/order")
 	}
 
 	shiftedTreasures, capReached := bcn.ShiftMatching(int(howMany), predicate, capPredicate, int(capMax))
@@ -2670,13 +2700,9 @@ func (s *swamp) CloneAndDeleteMatchingTreasures(beaconType BeaconType, order Bea
 		s.deleteHandler(d.GetKey(), false)
 	}
 
-	// Auto-destroy on empty, mirroring CloneAndDeleteExpiredTreasures.
-	if s.beaconKey.Count() == 0 {
-		s.CeaseVigil()
-		s.Destroy()
-	}
-
-	return shiftedTreasures, capReached, nil
+	// The auto-destroy-on-empty check is done by the caller, after capMu
+	// has been released.
+	return shiftedTreasures, capReached, true, nil
 }
 
 // CountMatchingTreasures counts treasures matching the predicate on the
